@@ -144,6 +144,12 @@ _vbi_pfc_demux_decode		(vbi_pfc_demux *	dx,
 						   &dx->block)) {
 					goto desynced;
 				}
+
+				if (col >= 42) {
+					/* The block ended with the last
+					   byte of this packet. */
+					return TRUE;
+				}
 			}
 		}
 
